@@ -25,6 +25,10 @@ def levels(tier):
              "overwrite": [False], "tpool": [0, 1]},
             {"name": "clear-n3", "kind": "typed", "n": 3, "alphabet": ["page", "links", "clear"], "links_batch": 1, "defaults": ["domain"],
              "anchored": [None], "overwrite": [False], "tpool": [0, 1]},
+            {"name": "clear-rules-n2", "kind": "typed", "n": 2, "alphabet": ["page", "clear"], "defaults": ["domain"],
+             "anchored": [(1, 3, "path1")], "overwrite": [False], "tpool": [0, 1], "clear_noargs": True},
+            {"name": "populated-folder", "kind": "typed", "n": 1, "alphabet": ["page", "links"], "links_batch": 1, "defaults": ["domain"],
+             "anchored": [None], "overwrite": [True], "tpool": [0, 1], "prepopulate": True},
             {"name": "long-n1", "kind": "plain", "pools": [[[74], [74, 1], [1]], [[73], [147], [1, 148]]], "sparse": True, "n": 1,
              "alphabet": ["page", "links", "we", "rule"], "links_batch": 2, "overwrite": [False]},
         ]
@@ -79,8 +83,15 @@ def harness(E):
         pool = plain_pool(E, [len(x) for x in L], L, sparse=P.get("sparse", False))
         E.reach("long-stem")
         dpat = NEVER
+    folder = E.fresh_folder("idx")
+    if P.get("prepopulate"):
+        # the folder already holds an index with pages and links: overwrite=True must start from nothing
+        old = E.Traph(folder=folder, default_webentity_creation_rule=dpat, webentity_creation_rules={})
+        old.add_links([(pool[0].lru, pool[1].lru), (pool[1].lru, pool[0].lru), (pool[0].lru, pool[0].lru)])
+        old.close()
     mem = E.Traph(folder=None, overwrite=overwrite, default_webentity_creation_rule=dpat, webentity_creation_rules=dict(rules))
-    fil = E.Traph(folder=E.fresh_folder("idx"), overwrite=overwrite, default_webentity_creation_rule=dpat, webentity_creation_rules=dict(rules))
+    ok, fil = E.call("open", lambda: E.Traph(folder=folder, overwrite=overwrite, default_webentity_creation_rule=dpat,
+                                              webentity_creation_rules=dict(rules)), _allowed=())
     tw = Twin(E, mem, fil)
     h = History(E, tw, ref, pool, P["alphabet"], P)
     for i in range(P["n"]):
